@@ -78,7 +78,10 @@ var InVariants = []string{"quorum", "quorum-1", "all-members", "one-bad-signatur
 
 var ObsKinds = []string{"valid", "forged", "claims-other", "other-digest",
 	// malformed shapes (C13): a valid member signature with one field bent
-	"hash-empty", "hash-31", "hash-33", "sig-empty", "sig-64", "sig-66", "addr-nil", "addr-19", "addr-21", "all-nil"}
+	"hash-empty", "hash-31", "hash-33", "sig-empty", "sig-64", "sig-66", "addr-nil", "addr-19", "addr-21", "all-nil",
+	// the same valid signature in another ENCODING: recovery id written as 27/28 (Ethereum transaction
+	// style). Neither vaa.VerifySignatures nor the contracts' own v+27 accept it inside a VAA, so it must not count.
+	"recid+27"}
 
 var unknownDigest = crypto.Keccak256([]byte("a digest of no message"))
 
@@ -135,6 +138,9 @@ func (c *Config) Materialise(n *Node, e Event) interface{} {
 				o.Addr = append([]byte{0}, o.Addr...)
 			case "all-nil":
 				o = &gossipv1.SignedObservation{}
+			case "recid+27":
+				o.Signature = append([]byte{}, o.Signature...)
+				o.Signature[64] += 27
 			}
 		}
 		return o
